@@ -17,8 +17,9 @@ func runC12(opt *Options) int {
 		ints = map[string]int{"VerifC12StepMax": 6, "VerifC12ChainMax": 4, "VerifC12NameTail": 7}
 	}
 	lr := &laRun{
-		Opt:  opt,
-		Pkgs: []string{"config"},
+		Opt:       opt,
+		E2EAlways: "c12",
+		Pkgs:      []string{"config", "generator"},
 		Kernels: []layera.Kernel{
 			{Name: "K6.step", Pkg: "config", Harness: "VerifHarness_C12_Step", Unwind: 64, Stub: stub, SetInts: ints},
 			{Name: "K6.unknown", Pkg: "config", Harness: "VerifHarness_C12_Unknown", Unwind: 64, Stub: stub},
@@ -26,6 +27,7 @@ func runC12(opt *Options) int {
 			{Name: "K6.chain", Pkg: "config", Harness: "VerifHarness_C12_Chain", Unwind: 64, Stub: stub, SetInts: ints},
 			{Name: "K6.wronglevel", Pkg: "config", Harness: "VerifHarness_C12_WrongLevel", Unwind: 64, Stub: stub},
 			{Name: "K6.unknownname", Pkg: "config", Harness: "VerifHarness_C12_UnknownName", Unwind: 64, Stub: stub, SetInts: ints},
+			{Name: "K16.submethod", Pkg: "generator", Harness: "VerifHarness_C12_SubMethod", Unwind: 16, E2E: "c12", Stub: []string{"(*github.com/jmattheis/goverter/generator.generator).CallMethod", "(*github.com/jmattheis/goverter/generator.generator).buildMethod"}},
 		},
 		Funcs:  []string{"config.parseCommon", "config.parseConverterLines", "config.parseConverterLine", "config.parseMethod", "config.parseMethodLine", "config.formatLineError", "config.validateEnumAction", "config.IsEnumAction", "parse.Command", "parse.Bool", "parse.Enum", "parse.String", "parse.Regex", "config.init (DefaultCommon, DefaultConfigInterface)"},
 		Bounds: "one line per level (CLI, converter, method) + sibling method + second converter; value strings: any ASCII bytes, length <= 5 (step) / <= 3 (chain), thorough <= 6 / <= 4; arbitrary pre-state Common (all booleans symbolic); unwind 64 asserted",
